@@ -44,9 +44,7 @@ Theorem C08_oer_zero_width_elements_unbounded_refuted : ltac:(let T := type of A
 Proof. exact Asn1V.Oer.OerWork.oer_zero_width_elements_unbounded. Qed.
 Print Assumptions C08_oer_zero_width_elements_unbounded_refuted.
 
-(* OPEN: C08_uper_dec_steps : an instrumented step count linear in (length data + 1) times a
-   type-dependent constant (fixed-size SEQUENCE OF of zero-width elements make the constant
-   exponential in the nesting, so the bound must carry the declared sizes). *)
+
 
 (** Aligned PER: the same two facts for per.py's model. *)
 From Asn1V Require Import Per.PerImpl Per.PerPrim Per.PerPB Per.PerExt.
@@ -65,3 +63,110 @@ Theorem C08_per_decode_ext_stable :
     per_decode numeric fuel e t data = Ok (v, n) -> per_decode numeric fuel e t (data ++ tail)%list = Ok (v, n).
 Proof. exact per_decode_ext_stable. Qed.
 Print Assumptions C08_per_decode_ext_stable.
+
+(** ------------------------------------------------------------------
+    Work bound (Per/UperCost*.v).  [dec_cost] is [dec] instrumented in a cost monad: one unit per read_bits /
+    read_bit call, per loop iteration (element, member, presence bit, fragment, character) and per recursive
+    decode call; [K e fuel t] is a type-dependent constant computed by abstract interpretation of the decoder
+    (declared fixed sizes multiply, data-dependent counts are paid for by consumed input; the dominant term is
+    16385 steps per bit for zero-width elements under a length determinant, shown tight below).  The bound holds
+    for EVERY input, accepted or rejected. *)
+From Coq Require Import NArith.
+From Asn1V Require Import Per.UperCost Per.UperCostProofs Per.UperCostEx.
+Local Open Scope string_scope.
+
+(* the instrumentation does not change behaviour *)
+Theorem C08_uper_dec_cost_erases :
+  forall numeric e fuel t inp, fst (dec_cost numeric e fuel t inp) = dec numeric e fuel t inp.
+Proof. exact dec_cost_erases. Qed.
+Print Assumptions C08_uper_dec_cost_erases.
+
+Theorem C08_uper_decode_cost_erases :
+  forall numeric fuel e t data, fst (uper_decode_cost numeric fuel e t data) = uper_decode numeric fuel e t data.
+Proof. exact uper_decode_cost_erases. Qed.
+Print Assumptions C08_uper_decode_cost_erases.
+
+(* THE WORK BOUND, any input (success or error), bits and octets *)
+Theorem C08_uper_dec_cost_bound :
+  forall numeric e fuel t inp,
+    (snd (dec_cost numeric e fuel t inp) <= K e fuel t * (N.of_nat (length inp) + 1))%N.
+Proof. exact dec_cost_bound. Qed.
+Print Assumptions C08_uper_dec_cost_bound.
+
+Theorem C08_uper_decode_cost_bound :
+  forall numeric fuel e t data,
+    (snd (uper_decode_cost numeric fuel e t data) <= K e fuel t * (8 * N.of_nat (length data) + 1))%N.
+Proof. exact uper_decode_cost_bound. Qed.
+Print Assumptions C08_uper_decode_cost_bound.
+
+(* sharper forms: additive + per-bit part; success is paid by the CONSUMED bits *)
+Theorem C08_uper_dec_cost_bound_ab :
+  forall numeric e fuel t inp,
+    (snd (dec_cost numeric e fuel t inp) <= ka (Kabw e fuel t) + kb (Kabw e fuel t) * N.of_nat (length inp))%N.
+Proof. exact dec_cost_bound_ab. Qed.
+Print Assumptions C08_uper_dec_cost_bound_ab.
+
+Theorem C08_uper_dec_cost_bound_consumed :
+  forall numeric e fuel t inp v rest c,
+    dec_cost numeric e fuel t inp = (Ok (v, rest), c) ->
+    (length rest <= length inp)%nat /\
+    (c <= ka (Kabw e fuel t) + kb (Kabw e fuel t) * N.of_nat (length inp - length rest))%N.
+Proof. exact dec_cost_bound_consumed. Qed.
+Print Assumptions C08_uper_dec_cost_bound_consumed.
+
+(* the constant does not depend on the fuel for acyclic specifications *)
+Theorem C08_uper_K_fuel_stable :
+  forall e d t fuel, fits e d t = true -> (d <= fuel)%nat -> K e fuel t = K e d t.
+Proof. exact K_fuel_stable. Qed.
+Print Assumptions C08_uper_K_fuel_stable.
+
+Theorem C08_uper_dec_cost_bound_acyclic :
+  forall numeric e d t fuel inp, fits e d t = true -> (d <= fuel)%nat ->
+    (snd (dec_cost numeric e fuel t inp) <= K e d t * (N.of_nat (length inp) + 1))%N.
+Proof. exact dec_cost_bound_acyclic. Qed.
+Print Assumptions C08_uper_dec_cost_bound_acyclic.
+
+(* recursive specifications: a bound for EVERY fuel, conditional on a computed check *)
+Theorem C08_uper_dec_cost_bound_rec :
+  forall numeric B M rho e d fuel t inp,
+    0 <= B -> rho_ok B M rho e d = true -> dok (dK B M rho e fuel t) = true ->
+    Z.of_N (snd (dec_cost numeric e fuel t inp))
+    <= Z.max (dd (dK B M rho e fuel t)) (de (dK B M rho e fuel t)) + B * Z.of_nat (length inp).
+Proof. exact dec_cost_bound_rec. Qed.
+Print Assumptions C08_uper_dec_cost_bound_rec.
+
+Theorem C08_uper_dec_cost_bound_rec_stable :
+  forall numeric B M rho e d d' fuel t inp,
+    0 <= B -> rho_ok B M rho e d = true -> dfits rho e d' t = true -> (d' <= fuel)%nat ->
+    dok (dK B M rho e d' t) = true ->
+    Z.of_N (snd (dec_cost numeric e fuel t inp))
+    <= Z.max (dd (dK B M rho e d' t)) (de (dK B M rho e d' t)) + B * Z.of_nat (length inp).
+Proof. exact dec_cost_bound_rec_stable. Qed.
+Print Assumptions C08_uper_dec_cost_bound_rec_stable.
+
+(* tightness of the dominant factor / amplification witness family (see section 4) *)
+Theorem C08_uper_seqof_null_amplification :
+  forall numeric e f isset k,
+    uper_decode_cost numeric (S (S f)) e (TSeqOf isset TNull SzNone) (repeat 196 k ++ [0])
+    = (Ok (VList (repeat VNone (k * Z.to_nat 65536)), (8 * (k + 1))%nat), (131074 * N.of_nat k + 3)%N).
+Proof. exact uper_seqof_null_amplification. Qed.
+Print Assumptions C08_uper_seqof_null_amplification.
+
+(* an unguarded recursion is stopped only by the fuel: no fuel-independent constant *)
+Theorem C08_uper_unguarded_recursion_costs_the_fuel :
+  forall numeric f inp,
+    dec_cost numeric loop_env f (TRef "L") inp = (Err EFuel, loop_cost f) /\ (N.of_nat f <= loop_cost f)%N.
+Proof. exact unguarded_recursion_costs_the_fuel. Qed.
+Print Assumptions C08_uper_unguarded_recursion_costs_the_fuel.
+
+(** Non-vacuity: the constant for the C01 example type and a type with fixed-size arrays, measured costs of hostile
+    inputs next to the bound, and fuel-independent bounds for three recursive specifications. *)
+Example C08_K_examples : ltac:(let T := type of (conj K_ex_ty_12 K_arr_ty) in exact T).
+Proof. exact (conj K_ex_ty_12 K_arr_ty). Qed.
+Print Assumptions C08_K_examples.
+Example C08_measured_examples : ltac:(let T := type of (conj ex_ty_measured arr_ty_measured) in exact T).
+Proof. exact (conj ex_ty_measured arr_ty_measured). Qed.
+Print Assumptions C08_measured_examples.
+Example C08_recursive_bounds : ltac:(let T := type of (conj R_bound_any_fuel tree_bound_any_fuel) in exact T).
+Proof. exact (conj R_bound_any_fuel tree_bound_any_fuel). Qed.
+Print Assumptions C08_recursive_bounds.
